@@ -24,8 +24,10 @@ EXTENDS Optimum, Json, IOUtils, TLC
 UNIT == 10000
 Recs == ndJsonDeserialize(IOEnv.TRACE_FILE)
 
-VARIABLES tid, acc, slk, cur, w, sl, lastw, cnt, tot, hit, sat
-vars == <<tid, acc, slk, cur, w, sl, lastw, cnt, tot, hit, sat>>
+VARIABLES tid, acc, slk, cur, w, sl, lastw, cnt, tot, hit, sat,
+          cura,     \* weight * traversals of the OPEN route per required edge (only tracked when r.prodcap >= 0)
+          curs      \* slack * traversals of the OPEN route per required edge (ditto)
+vars == <<tid, acc, slk, cur, w, sl, lastw, cnt, tot, hit, sat, cura, curs>>
 
 R == Recs[tid]
 IDLE == "-"
@@ -60,12 +62,15 @@ Init ==
   /\ slk = [e \in Req(Recs[tid]) |-> 0]
   /\ cur = IDLE /\ w = 0 /\ sl = 0 /\ cnt = 0 /\ tot = 0 /\ hit = {} /\ sat = {}
   /\ lastw = MaxVal(Recs[tid])
+  /\ cura = [e \in Req(Recs[tid]) |-> 0]
+  /\ curs = [e \in Req(Recs[tid]) |-> 0]
 
 Start(x, s) ==
   /\ cur = IDLE /\ cnt < R.k
   /\ x \in 0..lastw
   /\ s \in (IF IsMPE(R) THEN 0..(SlackBudget(R) - tot) ELSE {0})
   /\ cur' = SRC /\ w' = x /\ sl' = s /\ lastw' = x /\ cnt' = cnt + 1 /\ tot' = tot + s /\ hit' = {}
+  /\ cura' = [e \in Req(R) |-> 0] /\ curs' = [e \in Req(R) |-> 0]
   /\ UNCHANGED <<tid, acc, slk, sat>>
 
 Step(e) ==
@@ -78,6 +83,13 @@ Step(e) ==
      THEN /\ cur' = IDLE /\ hit' = {}
           /\ sat' = sat \cup {j \in 1..Len(R.cons) : HonouredBy(R, ECons(R)[j], h)}
      ELSE /\ cur' = e[2] /\ hit' = h /\ sat' = sat
+  (* Named deviation of the code (known finding KF-C07-product-bound): the walk models bound the product
+     multiplicity * weight of ONE walk on ONE edge by k * max f.  With r.prodcap >= 0 the adversary obeys the same
+     restriction, which tells whether a witness needs a product beyond that bound. *)
+  /\ cura' = IF R.prodcap >= 0 /\ e \in Req(R) THEN [cura EXCEPT ![e] = @ + w] ELSE cura
+  /\ (R.prodcap >= 0 /\ e \in Req(R)) => cura[e] + w <= R.prodcap
+  /\ curs' = IF R.prodcap >= 0 /\ e \in Req(R) THEN [curs EXCEPT ![e] = @ + sl] ELSE curs
+  /\ (R.prodcap >= 0 /\ e \in Req(R)) => curs[e] + sl <= R.prodcap
   /\ UNCHANGED <<tid, w, sl, lastw, cnt, tot>>
 
 Next == (\E x \in 0..lastw : \E s \in 0..(IF IsMPE(R) THEN SlackBudget(R) ELSE 0) : Start(x, s))
